@@ -56,6 +56,33 @@ pub enum Overlap {
     NotFound,
 }
 
+/// unit variants declared AFTER variants with captures that accept the same path: declaration order decides
+#[derive(Debug, Route, PartialEq, Eq, Clone)]
+pub enum Shadow {
+    #[to("/<page>")]
+    Page { page: String },
+    #[to("/about")]
+    About,
+    #[to("/u/<id>")]
+    User(u32),
+    #[to("/u/me")]
+    Me,
+    #[to("/u/7")]
+    Seven,
+    #[to("/docs/<rest..>")]
+    Docs(Vec<String>),
+    #[to("/docs/index")]
+    DocsIndex,
+    #[to("/n/<ns..>")]
+    Ns(Vec<u32>),
+    #[to("/n/x/y")]
+    NXY,
+    #[to("/")]
+    Home,
+    #[not_found]
+    NotFound,
+}
+
 fn nums(v: &[u32]) -> String {
     format!("N[{}]", v.iter().map(|n| n.to_string()).collect::<Vec<_>>().join(","))
 }
@@ -95,6 +122,21 @@ fn canon_overlap(r: &Overlap) -> (usize, Vec<String>) {
         Overlap::StrsEnd { ss } => (3, vec![strs(ss)]),
         Overlap::AllNums(v) => (4, vec![nums(v)]),
         Overlap::NotFound => (5, vec![]),
+    }
+}
+fn canon_shadow(r: &Shadow) -> (usize, Vec<String>) {
+    match r {
+        Shadow::Page { page } => (0, vec![format!("s{}", enc(page))]),
+        Shadow::About => (1, vec![]),
+        Shadow::User(n) => (2, vec![format!("n{n}")]),
+        Shadow::Me => (3, vec![]),
+        Shadow::Seven => (4, vec![]),
+        Shadow::Docs(v) => (5, vec![strs(v)]),
+        Shadow::DocsIndex => (6, vec![]),
+        Shadow::Ns(v) => (7, vec![nums(v)]),
+        Shadow::NXY => (8, vec![]),
+        Shadow::Home => (9, vec![]),
+        Shadow::NotFound => (10, vec![]),
     }
 }
 fn show((v, f): (usize, Vec<String>)) -> String {
@@ -231,6 +273,21 @@ fn table(e: usize) -> (Vec<(&'static str, Vec<K>)>, usize) {
                 ("/<all..>", vec![K::VecU32]),
             ],
             5,
+        ),
+        3 => (
+            vec![
+                ("/<page>", vec![K::Str]),
+                ("/about", vec![]),
+                ("/u/<id>", vec![K::U32]),
+                ("/u/me", vec![]),
+                ("/u/7", vec![]),
+                ("/docs/<rest..>", vec![K::VecStr]),
+                ("/docs/index", vec![]),
+                ("/n/<ns..>", vec![K::VecU32]),
+                ("/n/x/y", vec![]),
+                ("/", vec![]),
+            ],
+            10,
         ),
         _ => (
             vec![
@@ -417,6 +474,7 @@ pub fn exec(line: &str) -> (String, Option<String>, bool) {
                 let o = match e {
                     0 => run_enum(e, || canon_main(&Main::default().match_route(&refs))),
                     1 => run_enum(e, || canon_overlap(&Overlap::default().match_route(&refs))),
+                    3 => run_enum(e, || canon_shadow(&Shadow::default().match_route(&refs))),
                     _ => run_enum(e, || canon_inner(&Inner::default().match_route(&refs))),
                 };
                 (o, path)
@@ -425,6 +483,7 @@ pub fn exec(line: &str) -> (String, Option<String>, bool) {
                 let o = match e {
                     0 => run_enum(e, || canon_main(&Main::default().match_path(&url))),
                     1 => run_enum(e, || canon_overlap(&Overlap::default().match_path(&url))),
+                    3 => run_enum(e, || canon_shadow(&Shadow::default().match_path(&url))),
                     _ => run_enum(e, || canon_inner(&Inner::default().match_path(&url))),
                 };
                 // reference URL split: cut at the first ? or #, split on '/', drop empties
@@ -500,16 +559,19 @@ pub fn generate(args: &Args) -> Vec<String> {
         lines.push(format!("route path {} {}", enc_pat(&p), enc_list(&s)));
     }
     // (3) derived enums on all segment lists over their own vocabulary
-    let vocab: [&[&str]; 3] = [
+    let vocab: [&[&str]; 4] = [
         &["a", "nums", "files", "x", "mid", "sub", "item", "end", "7", "+3", "4294967296", "q", "name", "all", "-1"],
         &["1", "w", "end", "4294967295", "00", "+", "e?q=1"],
         &["item", "name", "all", "5", "z", "-0"],
+        &["about", "u", "me", "7", "docs", "index", "n", "x", "y", "12"],
     ];
     for (e, v) in vocab.iter().enumerate() {
         let v: Vec<String> = v.iter().map(|s| s.to_string()).collect();
         let max = match (e, thorough) {
             (0, false) => 4,
             (0, true) => 5,
+            (3, false) => 4,
+            (3, true) => 5,
             (_, false) => 5,
             (_, true) => 7,
         };
@@ -518,11 +580,11 @@ pub fn generate(args: &Args) -> Vec<String> {
         }
     }
     // (4) URL strings
-    let pieces = ["/", "//", "a", "nums", "files", "x", "mid", "sub", "item", "end", "7", "12", "?", "#", "?q=/end", "#/end", "%", "é", "name", "all", "+3", "q", "1", "w"];
+    let pieces = ["/", "//", "a", "nums", "files", "x", "mid", "sub", "item", "end", "7", "12", "?", "#", "?q=/end", "#/end", "%", "é", "name", "all", "+3", "q", "1", "w", "about", "u", "me", "docs", "index", "n", "y"];
     let n_url = if thorough { 300_000 } else { 30_000 };
     for _ in 0..n_url {
-        let e = rng.below(3);
-        let n = 1 + rng.below(9);
+        let e = rng.below(4);
+        let n = if e == 3 { 1 + rng.below(4) } else { 1 + rng.below(9) };
         let mut u = String::new();
         for _ in 0..n {
             u += *rng.pick(&pieces[..]);
